@@ -23,8 +23,11 @@ def load_known():
             line = line.strip()
             if line.startswith('finding:'):
                 body, _, desc = line[len('finding:'):].partition('::')
-                kv = dict(x.split('=', 1) for x in body.split() if '=' in x)
-                known.append({'property': kv.get('property'), 'key': kv.get('key'), 'desc': desc.strip()})
+                import re as _re
+                mp = _re.search(r'property=(\S+)', body)
+                mk = _re.search(r'key="([^"]*)"', body)
+                known.append({'property': mp.group(1) if mp else None, 'key': mk.group(1) if mk else None,
+                              'desc': desc.strip()})
             elif line.startswith('fixed:'):
                 fixed.append(line)
     return known, fixed
@@ -205,8 +208,9 @@ def main():
     if obligations == 0:
         ev['coverage']['obligations'] = 1; ev['coverage']['discharged'] = 0
     os.makedirs(os.path.join(VERIF, 'evidence'), exist_ok=True)
-    with open(os.path.join(VERIF, 'evidence', prop + '.json'), 'w', encoding='utf-8') as f:
-        json.dump(ev, f, ensure_ascii=False, indent=1, default=str)
+    if not args.skip_lean:      # a development run without the Lean stage is not evidence
+        with open(os.path.join(VERIF, 'evidence', prop + '.json'), 'w', encoding='utf-8') as f:
+            json.dump(ev, f, ensure_ascii=False, indent=1, default=str)
     print(f"{prop} {tier}: {len(recs)} cases {dict(stats)}; theorems {discharged}/{obligations}; "
           f"{vio_count} violation(s); {ev['wall_s']} s")
     return 1 if vio_count else 0
